@@ -160,10 +160,20 @@ def check(tier, seed, runs, workers, secs):
     known = V.load_known()
     unlisted, known_hits, unconfirmed = [], {}, []
     by_class = {}
+    # up to six candidates per class (see verif.py: a violation may need what preceded it in its worker)
     for v in sorted(violations, key=lambda v: int(v["run_index"])):
         if "violation" in v:
-            by_class.setdefault(v["violation"]["class"], v)
-    for vclass, v in sorted(by_class.items()):
+            c = by_class.setdefault(v["violation"]["class"], [])
+            if len(c) < 6:
+                c.append(v)
+    candidates = []
+    for vclass, vs in sorted(by_class.items()):
+        for n, v in enumerate(vs):
+            candidates.append((vclass, v, n == len(vs) - 1))
+    settled = set()
+    for vclass, v, last in candidates:
+        if vclass in settled:
+            continue
         path = os.path.join(V.REPLAYS, "C18-%s-%s-%s.json" % (seed, v["run_index"], V.slug(vclass)))
         with open(path, "w") as f:
             json.dump(v, f, indent=1)
@@ -179,8 +189,10 @@ def check(tier, seed, runs, workers, secs):
             except Exception:
                 pass
             if not again:
-                unconfirmed.append(vclass)
+                if last:
+                    unconfirmed.append(vclass)
                 continue
+        settled.add(vclass)
         k = V.match_known(known, "C18", vclass, v.get("history_kinds", []))
         if k is not None:
             known_hits[k.get("id", vclass)] = (k, path)
